@@ -162,6 +162,7 @@ pub fn fresh_process(fs: &Fs, entry: &str, settings: &Settings, v: &Variant) -> 
         let mut v2 = v.clone();
         v2.root = None;
         v2.preregister = v.preregister.iter().map(|f| relocate(f, root)).collect();
+        v2.earlier = v.earlier.iter().map(|r| r.iter().map(|(f, c)| (relocate(f, root), c.clone())).collect()).collect();
         let mut r = fresh_process(&fs2, &relocate(entry, root), settings, &v2);
         let back = |s: &str| s.replace(&format!("{}/", root), "/p/");
         let fix = |t: &mut Triple| {
@@ -188,7 +189,38 @@ pub fn fresh_process(fs: &Fs, entry: &str, settings: &Settings, v: &Variant) -> 
             let shared: Shared = Rc::new(RefCell::new(HostState { fs, ..Default::default() }));
             install_host(&shared);
             let mut update_panic = None;
+            if !v.earlier.is_empty() {
+                let finals = shared.borrow().fs.clone();
+                let mut touched: std::collections::BTreeSet<String> = Default::default();
+                for round in &v.earlier {
+                    for (f, c) in round {
+                        shared.borrow_mut().fs.insert(f.clone(), c.clone());
+                        touched.insert(f.clone());
+                        let _ = update(&shared, f, c);
+                    }
+                    let _ = build_triple(&shared, &entry, &settings, false);
+                }
+                for f in &touched {
+                    match finals.get(f) {
+                        Some(c) => {
+                            shared.borrow_mut().fs.insert(f.clone(), c.clone());
+                            if let Err(p) = update(&shared, f, c) {
+                                update_panic = Some(format!("update_file_content: {}", p));
+                            }
+                        }
+                        None => {
+                            shared.borrow_mut().fs.remove(f);
+                        }
+                    }
+                }
+                let mut st = shared.borrow_mut();
+                st.resolve_log.clear();
+                st.files_read.clear();
+            }
             for f in &v.preregister {
+                if update_panic.is_some() {
+                    break;
+                }
                 let c = shared.borrow().fs.get(f).cloned();
                 if let Some(c) = c {
                     if let Err(p) = update(&shared, f, &c) {
